@@ -644,6 +644,14 @@ def check_compile_expr(ctx, nts):
             fi = g
     R = fi.node.args.args[0].arg
     kinds = set()
+    # Round 9.  the branch taken through a callable picked at run time (a table of
+    # (class, function) walked by a loop): the cases are not the branches of this function
+    local_ = {x.id for x in ast.walk(fi.node) if isinstance(x, ast.Name) and isinstance(x.ctx, ast.Store)}
+    lams = {t.id for a in ast.walk(fi.node) if isinstance(a, ast.Assign) and isinstance(a.value, ast.Lambda) for t in a.targets if isinstance(t, ast.Name)}
+    picked = [c for c in ast.walk(fi.node) if isinstance(c, ast.Call) and isinstance(c.func, ast.Name) and c.func.id in local_ - lams and canon(c.args[0] if c.args else c) == R]
+    if picked:
+        ctx.undecided(rule, fi, 'compile_expr: %s' % canon(picked[0])[:80], 'the compiler of each kind of expression is a callable chosen at run time: cannot tell which code compiles which kind', picked[0].lineno, clause='c')
+        return
 
     # one walk per class of the root expression: the tests on its class are decided by the case,
     # and a namedtuple expression is the tuple of its fields (so it can be unpacked, sliced,
